@@ -345,6 +345,35 @@ func Gen(r *hx.Run) {
 // optBytes: structure-aware option strings: valid options, truncated, bad lengths, noise.
 func optBytes(r *hx.Run) []byte {
 	var b []byte
+	if r.R.Intn(3) == 0 {
+		// the layouts real stacks emit: options in 32-bit aligned groups, NOPs in front of each
+		// (NOP NOP TS, NOP NOP SACK(n), MSS, NOP WS, SACK-permitted NOP NOP ...), in any order
+		r.Count("opts.aligned-groups")
+		for i := 1 + r.R.Intn(4); i > 0; i-- {
+			for k := r.R.Intn(3); k > 0; k-- {
+				b = append(b, 1)
+			}
+			switch r.R.Intn(5) {
+			case 0:
+				b = append(b, 8, 10)
+				b = append(b, r.Bytes(8)...)
+			case 1:
+				k := 1 + r.R.Intn(4)
+				b = append(b, 5, byte(2+8*k))
+				b = append(b, r.Bytes(8*k)...)
+			case 2:
+				b = append(b, 2, 4, byte(r.R.Intn(256)), byte(r.R.Intn(256)))
+			case 3:
+				b = append(b, 3, 3, byte(r.R.Intn(15)))
+			default:
+				b = append(b, 4, 2)
+			}
+		}
+		for len(b)%4 != 0 {
+			b = append(b, []byte{0, 1}[r.R.Intn(2)])
+		}
+		return b
+	}
 	n := r.R.Intn(6)
 	for i := 0; i < n; i++ {
 		switch r.R.Intn(9) {
